@@ -524,7 +524,13 @@ fn main() {
             _ => fam == "scratch",
         };
         let mut scases: Vec<(String, Scratch<SCase>)> = vec![];
-        for op in scratch::sop_list().into_iter().filter(|o| in_fam(o)) {
+        // quick: five of the eight vector shapes (alignments 3, 3, 5, 4, 1)
+        let quick_shapes = [(6usize, 3usize), (9, 3), (10, 5), (8, 4), (3, 1)];
+        let in_tier = |op: &SOp| match op {
+            SOp::Vec(m, a, _) => tier.is_thorough() || quick_shapes.contains(&(*m, *a)),
+            _ => true,
+        };
+        for op in scratch::sop_list().into_iter().filter(|o| in_fam(o) && in_tier(o)) {
             for ins in scratch::inputs_for(&op, seed, tier.is_thorough()) {
                 let c = SCase { op: op.clone(), ins };
                 let k = c.key();
@@ -638,7 +644,7 @@ fn main() {
         }
         cx.note(format!("{fam}: {} cases; 1-deviation sweep over {} (case, chunk) units of operations {:?}", scases.len(), sf.len(), swept_ops));
         if fam != "scratch" {
-            cx.next_group_share(tier.pick(14.0, 600.0));
+            cx.next_group_share(tier.pick(3.0, 600.0));
         }
         cx.run_cases(&format!("{fam}-faults"), &sf, |(c, idxs)| {
             let mut out = CaseOut::batch();
@@ -647,6 +653,10 @@ fn main() {
             vgad::explore_faults(c, sk, idxs, if tier.is_thorough() { &faults[..] } else if fam == "dec" { &faults_all[..] } else { &faults_a[..] }, &mut out);
             out
         });
+        if fam == "dec" && !tier.is_thorough() {
+            // (2-deviation pairs of the decomposition family: thorough tier)
+            sp.clear();
+        }
         cx.run_cases(&format!("{fam}-pairs"), &sp, |(c, pairs)| {
             let mut out = CaseOut::batch();
             vgad::explore_pairs(c, sk, pairs, &f2, &mut out);
